@@ -21,7 +21,7 @@ MON_EXTRA = {"C06": ["M_FieldsSound"], "C07": [], "C08": [], "C10": ["M_C10_Same
 
 H3 = "{9, 10, 11}"
 MC_FAMS = {
-    ("C06", "quick"): [("MCResC06", dict(NProvs=2, ProvTypes="{1, 2, 4, 7, 12, 13}", HolderTypes=H3))],
+    ("C06", "quick"): [("MCResC06", dict(NProvs=2, ProvTypes="{1, 2, 4, 7, 12, 13}", HolderTypes=H3))],   # (zero-size types 15/16: real runs)
     ("C06", "thorough"): [("MCResC06", dict(NProvs=2, ProvTypes="{1, 2, 3, 4, 5, 6, 7, 8, 12, 13, 14}", HolderTypes=H3)),
                           ("MCResC06", dict(NProvs=3, ProvTypes="{2, 4, 7, 13}", HolderTypes=H3))],
     ("C07", "quick"): [("MCResC07", dict(NProvs=2, ProvTypes="{1, 2, 3, 4}", HolderTypes=H3))],
@@ -81,6 +81,74 @@ def scenarios_for(prop, tier, rng):
     return scs
 
 
+def real_phase(run, prop, tier, wd, binary, scs, inv, mon_extra, tag="b"):
+    """(B) run the scenarios on the real container, validate the recorded stages; registers violations in run;
+    returns the number of drifted units"""
+    bd = os.path.join(wd, tag)
+    os.makedirs(bd)
+    vlib.stage_specs(bd, ["Resolve.tla", "TraceResolve.tla"])
+    vlib.write_ndjson(os.path.join(bd, "in.ndjson"), scs)
+    p = vlib.run_harness(binary, ["resolve", "-in", "in.ndjson", "-out", "rt.ndjson"], cwd=bd)
+    if p.returncode != 0:
+        raise vlib.Infra("resolve harness failed: " + p.stderr[-1500:])
+    groups = el.split_trace(os.path.join(bd, "rt.ndjson"))
+    if len(groups) != len(scs):
+        raise vlib.Infra("harness produced %d groups for %d scenarios" % (len(groups), len(scs)))
+    units, cur, cur_key = [], None, None
+    for g, sc in zip(groups, scs):
+        key = json.dumps([sc["prov"], sc["pts"]], sort_keys=True)
+        if key != cur_key:
+            cur = []
+            units.append(cur)
+            cur_key = key
+        cur.extend(g)
+    consts = dict(Scenarios="<- TraceScenarios", **FIX)
+    res, errs = {}, []
+    def mon():
+        res["mon"] = el.validate_groups(bd, units, "TraceResolve", consts, inv + mon_extra, [], "mon", spec="MonitorSpec")
+    def conf():
+        res["conf"] = el.validate_groups(bd, units, "TraceResolve", consts, inv, [], "conf")
+    def g(fn):
+        try:
+            fn()
+        except Exception as e:
+            errs.append(e)
+    ts = [threading.Thread(target=g, args=(mon,)), threading.Thread(target=g, args=(conf,))]
+    for t in ts:
+        t.start()
+    for t in ts:
+        t.join()
+    if errs:
+        raise errs[0]
+    drift = 0
+    for layer in ("mon", "conf"):
+        st, fails = res[layer]
+        run.cov["states"] += st["states"]
+        run.cov["transitions"] += st["generated"]
+        for f in fails:
+            unit = units[f["group"]]
+            sc0 = json.loads(unit[0])["sc"]
+            if f["kind"] == "postcondition":
+                if layer == "mon":
+                    raise vlib.Infra("monitor could not consume a trace: " + f["tlc"][:500])
+                drift += 1
+                if drift <= 3:
+                    vlib.log("DRIFT module=Resolve scenario=%s line=%d: %s" % (sc0["id"], f["line"], unit[min(f["line"], len(unit)) - 1].strip()[:300]))
+                continue
+            what = "%s: %s %s violated on the recorded run(s) of scenario %s" % (
+                "monitor" if layer == "mon" else "conformance", f["kind"], f["name"], sc0["id"])
+            ids = {json.loads(x)["sc"]["id"] for x in unit if '"ev":"scenario"' in x[:40]}
+            run.violation(what, dict(scenarios=[s for s in scs if s["id"] in ids], operator=f["name"],
+                                     trace=[json.loads(x) for x in unit][:60], tlc=f["tlc"][:2500]))
+    run.cov["traces_validated_against_impl"] += len(groups)
+    for sc in scs:
+        nontrivial = any(p["ty"] not in (1, 6, 12) for p in sc["prov"][1:])
+        run.count_case([sc["prov"], sc["pts"], sc["order"], sc["reg"], sc.get("split")], nontrivial)
+    for u in units[:3]:
+        run.sample([json.loads(x) for x in u[:5]])
+    return drift
+
+
 def run_check(prop, tier, replay=None):
     run = vlib.Run(prop, tier, "model_checking")
     rng = random.Random(run.seed * 104729 + int(prop[1:]))
@@ -102,81 +170,11 @@ def run_check(prop, tier, replay=None):
             scs = json.load(open(replay))["replay"]["scenarios"]
         else:
             scs = scenarios_for(prop, tier, rng)
-        bd = os.path.join(workdir, "b")
-        os.makedirs(bd)
-        vlib.stage_specs(bd, ["Resolve.tla", "TraceResolve.tla"])
-        vlib.write_ndjson(os.path.join(bd, "in.ndjson"), scs)
-        p = vlib.run_harness(binary, ["resolve", "-in", "in.ndjson", "-out", "rt.ndjson"], cwd=bd)
-        if p.returncode != 0:
-            raise vlib.Infra("resolve harness failed: " + p.stderr[-1500:])
-        groups = el.split_trace(os.path.join(bd, "rt.ndjson"))
-        if len(groups) != len(scs):
-            raise vlib.Infra("harness produced %d groups for %d scenarios" % (len(groups), len(scs)))
-        # runs of one scenario (different orders) stay adjacent: merge them into one validation unit
-        units, cur, cur_key = [], None, None
-        for g, sc in zip(groups, scs):
-            key = json.dumps([sc["prov"], sc["pts"]], sort_keys=True)
-            if key != cur_key:
-                cur = []
-                units.append(cur)
-                cur_key = key
-            cur.extend(g)
-        consts = dict(Scenarios="<- TraceScenarios", **FIX)
-        res = {}
-        def mon():
-            res["mon"] = el.validate_groups(bd, units, "TraceResolve", consts, INV[prop] + MON_EXTRA[prop], [], "mon", spec="MonitorSpec")
-        def conf():
-            res["conf"] = el.validate_groups(bd, units, "TraceResolve", consts, INV[prop], [], "conf")
-        errs = []
-        def g(fn):
-            try:
-                fn()
-            except Exception as e:
-                errs.append(e)
-        ts = [threading.Thread(target=g, args=(mon,)), threading.Thread(target=g, args=(conf,))]
-        for t in ts:
-            t.start()
-        for t in ts:
-            t.join()
+        drift = real_phase(run, prop, tier, workdir, binary, scs, INV[prop], MON_EXTRA[prop])
         if th:
             th.join()
             if mc_err:
                 raise mc_err[0]
-        if errs:
-            raise errs[0]
-        drift = 0
-        for layer in ("mon", "conf"):
-            st, fails = res[layer]
-            run.cov["states"] += st["states"]
-            run.cov["transitions"] += st["generated"]
-            for f in fails:
-                unit = units[f["group"]]
-                sc0 = json.loads(unit[0])["sc"]
-                if f["kind"] == "postcondition":
-                    if layer == "mon":
-                        raise vlib.Infra("monitor could not consume a trace: " + f["tlc"][:500])
-                    drift += 1
-                    if drift <= 3:
-                        vlib.log("DRIFT module=Resolve scenario=%s line=%d: %s" % (sc0["id"], f["line"], unit[min(f["line"], len(unit)) - 1].strip()[:300]))
-                    continue
-                what = "%s: %s %s violated on the recorded run(s) of scenario %s" % (
-                    "monitor" if layer == "mon" else "conformance", f["kind"], f["name"], sc0["id"])
-                matched = False
-                for k in vlib.known_for(prop):
-                    if known_match(k, sc0, f):
-                        run.known(k, what)
-                        matched = True
-                        break
-                if not matched:
-                    ids = {json.loads(x)["sc"]["id"] for x in unit if '"ev":"scenario"' in x[:40]}
-                    run.violation(what, dict(scenarios=[s for s in scs if s["id"] in ids], operator=f["name"],
-                                             trace=[json.loads(x) for x in unit][:60], tlc=f["tlc"][:2500]))
-        run.cov["traces_validated_against_impl"] = len(groups)
-        for sc in scs:
-            nontrivial = any(p["ty"] not in (1, 6, 12) for p in sc["prov"][1:])
-            run.count_case([sc["prov"], sc["pts"], sc["order"], sc["reg"], sc.get("split")], nontrivial)
-        for u in units[:3]:
-            run.sample([json.loads(x) for x in u[:5]])
         run.cov["rule"] = ("scenario = holder + population of providers (type attributes: interface, qualifier method, Primary, "
                            "Mark method; instance attributes: custom name, qualifier string) x 1-3 injection points (kind, wire/func, "
                            "by type / by name, qualifier set, required) x candidate order x registration order x property order; "
